@@ -127,8 +127,24 @@ def run(repo, rep):
                     if isinstance(v, ast.Name) and v.id in ('annotation',):
                         continue    # the generic combinator's own parameter
                     n += 1
-                    ok = (isinstance(v, ast.Attribute) and src(v.value) == 'Token' and v.attr in members) or \
-                        (isinstance(v, ast.Call) and call_name(v) == 'CommentAnnotation')
+                    def is_member(x):
+                        return isinstance(x, ast.Attribute) and src(x.value) == 'Token' and x.attr in members
+                    ok = is_member(v) or (isinstance(v, ast.Call) and call_name(v) == 'CommentAnnotation')
+                    if not ok and isinstance(v, ast.Subscript) and isinstance(v.value, ast.Name):
+                        # an element of a module-level table (tuple / list / dict display) all of whose values are Token members
+                        tabs = mod.assigns.get(v.value.id, [])
+                        if len(tabs) == 1 and isinstance(tabs[0], (ast.Tuple, ast.List, ast.Dict)):
+                            elts = tabs[0].values if isinstance(tabs[0], ast.Dict) else tabs[0].elts
+                            ok = bool(elts) and all(is_member(e_) for e_ in elts)
+                    if not ok and isinstance(v, ast.Name):
+                        # a local name bound only to Token members (token = Token.A if ... else Token.B)
+                        fn_ = next((f_ for f_ in mod.funcs.values() if any(x_ is node for x_ in ast.walk(f_.node))), None)
+                        if fn_ is not None:
+                            binds = [s_.value for s_ in ast.walk(fn_.node) if isinstance(s_, ast.Assign) and any(isinstance(t_, ast.Name) and t_.id == v.id for t_ in s_.targets)]
+                            flat = []
+                            for b_ in binds:
+                                flat += [b_.body, b_.orelse] if isinstance(b_, ast.IfExp) else [b_]
+                            ok = bool(flat) and all(is_member(b_) for b_ in flat) and v.id not in fn_.params
                     rep.check(ok, 'C16.a', 'annotation-value:%s@%s' % (src(v), _fn_of(mod, node)), '%s:%d' % (mod.relpath, node.lineno),
                               'annotation is a Token member or a comment annotation',
                               'annotate(%s, ...) creates an annotation that is neither a Token member nor a CommentAnnotation' % src(v))
